@@ -45,6 +45,7 @@ from _ast import Pow
 from _ast import PyCF_ONLY_AST
 from _ast import RShift
 from _ast import Sub
+from _ast import Tuple
 from _ast import UAdd
 from _ast import USub
 
@@ -617,7 +618,15 @@ class SourceGenerator(NodeVisitor):
     def visit_Subscript(self, node):
         self.visit(node.value)
         self.write("[")
-        self.visit(node.slice)
+        if isinstance(node.slice, Tuple) and node.slice.elts:
+            # x[1:2, 3]: a slice cannot be written inside parentheses
+            for idx, item in enumerate(node.slice.elts):
+                self.write(", " if idx else "")
+                self.visit(item)
+            if len(node.slice.elts) == 1:
+                self.write(",")
+        else:
+            self.visit(node.slice)
         self.write("]")
 
     def visit_Slice(self, node):
